@@ -371,6 +371,8 @@ pub enum SizeClass {
     Huge,
     /// tile count steered so the encoded root directory lands around the window (16257, 16384]
     Window,
+    /// one run of more than 65 536 consecutive ids sharing one content
+    LongRun,
 }
 
 pub fn draw_size(rng: &mut Rng, huge_pct: u64) -> SizeClass {
@@ -392,6 +394,17 @@ pub fn draw_archive(rng: &mut Rng, size: SizeClass, ic: u8) -> Archive {
     let meta = Meta::draw(rng);
     let mut tiles = Vec::new();
     match size {
+        SizeClass::LongRun => {
+            let n = *rng.pick(&[65_535u64, 65_536, 65_537, 70_000, 131_073]);
+            let base = rng.below(1000);
+            let c = Cont { k: 1, seed: rng.below(256) as u32, len: 1 + rng.below(3) as u32 };
+            for i in 0..n {
+                tiles.push(Tile { id: base + i, c });
+            }
+            if rng.chance(50) {
+                tiles.push(Tile { id: base + n + 5, c: Cont { k: 0, seed: 9, len: 2 } });
+            }
+        }
         SizeClass::Window => {
             // distinct 4-byte contents, ids consecutive or sparse: the entry list (and so the
             // encoded root size) is known in advance; bisect the count against a target size
